@@ -300,7 +300,9 @@ def run(tier, seed, rep):
     cases = []
     for c in base:
         if c.get("colsample", 1.0) < 1:
-            r0 = run_case(dict(c, plan=[]))
+            from ..common import call_guarded
+
+            r0 = call_guarded(run_case, dict(c, plan=[]))
             for plan in sched.deviations(r0.get("trace", []), 2, max_alternatives=None if tier != "quick" else 5):
                 cases.append(dict(c, plan=plan))
         else:
